@@ -102,6 +102,9 @@ def validate(recs, dump, nl_counts):
                 if cls in sizes: size = sizes[cls]
                 elif cls in ntype or cls in con_groups: size = ntype.get(cls, 0)
                 elif cls == 'dest_cons()': continue
+                elif cls.startswith('dest_cons(') and cls.endswith(')') and cls[10:-1].isdigit():
+                    if dump is None: continue
+                    size = sum(1 for c in dump['cons'] if c.get('group') == int(cls[10:-1]))
                 else:
                     out.append(('C20 link refers to unknown item class %s' % cls, {'link': l})); break
                 if idx and (min(idx) < 0 or max(idx) >= size):
